@@ -34,6 +34,7 @@ type Options struct {
 	PunctAuthors      bool // author names with - ' . [ ] ( ) @ inside
 	LeadingBlankPaths bool // path components that begin with a blank (" lead.txt", "a/ x/f.txt")
 	MaxAuthors        int  // distinct author draws per history, default 4
+	ModeChanges       bool // a modification may flip the executable bit, with or without a content change (` mode change 100644 => 100755 path`)
 }
 
 var (
@@ -365,6 +366,16 @@ func (g *genState) ops(work Tree, own func(string) bool) []Op {
 			}
 			op.DropAt = rapid.IntRange(0, l-op.Drop).Draw(t, "dropAt")
 			op.InsAt = rapid.IntRange(0, l-op.Drop).Draw(t, "insAt")
+			if g.o.ModeChanges {
+				// 0-5 content only, 6 content and mode, 7 mode only
+				switch rapid.IntRange(0, 7).Draw(t, "chmod") {
+				case 6:
+					op.Chmod = true
+				case 7:
+					op.Chmod = true
+					op.Drop, op.Ins, op.DropAt, op.InsAt = 0, 0, 0, 0
+				}
+			}
 			touched[p] = true
 			work[p] = &File{Lines: make([]string, l-op.Drop+op.Ins), Binary: f.Binary}
 			ops = append(ops, op)
@@ -583,6 +594,13 @@ func Features(sim *Sim) []string {
 			}
 			if e.Exec {
 				set["executable_file_"+e.Mode()] = true
+			}
+			if e.ModeChange != "" {
+				if e.Added+e.Deleted == 0 {
+					set["mode_change_only"] = true
+				} else {
+					set["mode_change_with_edit"] = true
+				}
 			}
 			if e.Added >= 100 || e.Deleted >= 100 {
 				set["numstat_3_digits"] = true
